@@ -16,7 +16,7 @@
    (3) async: the waker woken is the one registered by the latest poll (Atomic: poll under
        the lock replaces the registered waker while the future is listed). *)
 From KV Require Import Base Chan Atomic Mem Sig.
-From KV.proofs Require Import Inv StepInv Cases Progress SigProof SigLive.
+From KV.proofs Require Import Inv StepInv Cases Progress SigProof SigLive LockDiscipline.
 
 Theorem c06_no_waiter_left_behind : forall b cap ls,
   let a := fst (arun (init b cap) ls) in
@@ -57,6 +57,12 @@ Theorem c06_recv_completes_first_blocked_sender : forall a k r,
     lookup k (objs a') = Some (fin_take o) /\ wait_list (ch a') = r.
 Proof. exact recv_completes_first_blocked_sender. Qed.
 
+(* no entry point ever waits for a signal while it holds the channel lock (its peer needs the lock to release it),
+   nor takes the lock while holding it: no self-inflicted deadlock, on every path of the current source *)
+Theorem c06_no_wait_under_the_lock : forall f a l b c,
+  In f Gen_Lock.lock_automata -> ld_run (snd f) a c -> (In (a, l, b) (snd f) -> violates l c = false) /\ snd c <= 1.
+Proof. exact no_execution_violates_the_discipline. Qed.
+
 (* progress of the hand-off: the peer never waits, the owner finishes on its own once the peer is done *)
 Theorem c06_claiming_peer_never_blocks : forall i s,
   In i sinits -> reach (snext actual_ords) i s -> peer_busy s = true ->
@@ -95,6 +101,7 @@ Print Assumptions c06_no_lost_wakeup.
 Print Assumptions c06_latest_waker_registered.
 Print Assumptions c06_send_completes_first_blocked_receiver.
 Print Assumptions c06_recv_completes_first_blocked_sender.
+Print Assumptions c06_no_wait_under_the_lock.
 Print Assumptions c06_claiming_peer_never_blocks.
 Print Assumptions c06_owner_finishes_once_peer_is_done.
 Print Assumptions c06_owner_steps_bounded.
